@@ -288,6 +288,13 @@ def plan_C20(seed, run, engine, tier="quick", entry=None):
     elif r < 0.4:
         X[:, -1] = np.where(X[:, -1] == 0, 1.0, X[:, -1])      # full last column
     prob["data"]["X"] = X.tolist()
+    if prob["data"].get("kind") == "surv" and rng.random() < 0.25:
+        # a survival target without any observed event (a heavily censored study, a CV fold):
+        # every index set built from the events is empty
+        ys = np.array(prob["data"]["y"], dtype=float)
+        ys[:, 1] = 0.0
+        prob["data"]["y"] = ys.tolist()
+        prob["data"]["degen"] = dict(kind="no_event")
     solver = e[0]
     fi, pp = prob["fi"], P._p(prob)
     gs = P._gscale(prob)
